@@ -100,6 +100,15 @@ impl C12 {
                 }
             }
         }
+        // deprecated shim lax::functor::define_map_arrow = dyn_functor::define_map_arrow
+        {
+            #[allow(deprecated)]
+            let a = lib(ctx, "lax::functor::define_map_arrow(shim)", class, &input, || lax::functor::define_map_arrow(&lfun, &lx));
+            let b = lib(ctx, "lax::Functor::map_arrow(dyn)", class, &input, || lfun.map_arrow(&lx));
+            if let (Some(a), Some(b)) = (a, b) {
+                ctx.check(a == b, "lax::functor::define_map_arrow(shim)/same-as-dyn_functor/value/any", || json!({"input": input()}));
+            }
+        }
         // identity functors
         if let Some(img) = lib(ctx, "Identity::map_arrow", class, &input, || Identity.map_arrow(&lf)) {
             ctx.count("law:identity-functor");
